@@ -29,6 +29,8 @@ import GrogModel.Lemmas.LoaderEnrich
 import GrogModel.Lemmas.LoaderMerge
 import GrogModel.Lemmas.LoaderBlocks
 import GrogModel.Lemmas.LoaderStar
+import GrogModel.Lemmas.LoaderNames
+import GrogModel.Props.C17
 namespace Grog.C16
 open Grog Grog.Loader
 
@@ -256,5 +258,40 @@ theorem makefile_starlark_agree (decode : Bytes → Option Annotation) (b : Bloc
   obtain ⟨n', hn'⟩ := mkGo_block decode b wf a ha hcolon 0 [] [] false
   have : b.lines = b.lines ++ [] := by simp
   rw [this, hn']; simp [mkGo]
+
+/-! ### names of loaded labels -/
+
+/-- Every label of a loaded package — targets and aliases, whatever format the package came from — has a name
+    that passes `validateName` (non-empty, not `...`, only `[A-Za-z0-9_.-]`) and the package's own path
+    (`"."` spelled `""`). A target or alias whose name cannot be written as a label is a load error
+    (`Err.badName`). -/
+theorem enrich_ok_valid_names {glob : Bytes → Option (List Bytes)} {dur : Bytes → Option Nat}
+    {pkgPath : Bytes} {dto : PackageDTO} {p : Package} (h : enrich glob dur pkgPath dto = .ok p) :
+    (∀ t ∈ p.targets, validName t.label.name = true ∧ t.label.pkg = normPkg pkgPath) ∧
+    (∀ a ∈ p.aliases, validName a.label.name = true ∧ a.label.pkg = normPkg pkgPath) :=
+  enrich_labels h
+
+/-- Hence `C17.parse_print_label` applies to every label grog prints for a loaded package: printing it and
+    parsing it again (from any current package) gives the same label back. Side condition: the package path
+    contains no `:` (package paths are directory paths relative to the workspace root; a directory name with a
+    colon is the one case excluded). -/
+theorem loaded_labels_round_trip {glob : Bytes → Option (List Bytes)} {dur : Bytes → Option Nat}
+    {pkgPath : Bytes} {dto : PackageDTO} {p : Package} (h : enrich glob dur pkgPath dto = .ok p)
+    (hpath : cColon ∉ normPkg pkgPath) (cur : Bytes) :
+    ∀ n ∈ p.nodes, parseLabel cur n.label.toBytes = some n.label := by
+  obtain ⟨ht, ha⟩ := enrich_labels h
+  intro n hn
+  simp only [Package.nodes, List.mem_append, List.mem_map] at hn
+  rcases hn with ⟨t, htm, rfl⟩ | ⟨a, ham, rfl⟩
+  · obtain ⟨hv, hp⟩ := ht t htm
+    exact Grog.C17.parse_print_label cur t.label (by rw [hp]; exact hpath) hv
+  · obtain ⟨hv, hp⟩ := ha a ham
+    exact Grog.C17.parse_print_label cur a.label (by rw [hp]; exact hpath) hv
+
+/-- satisfiable, and the guard bites: a target named "x:y" is a load error, one named "x.y" loads. -/
+example :
+    (enrich (fun _ => some []) (fun _ => none) [112] { targets := [some { name := [120, 58, 121] }] }).toOption.isNone = true ∧
+    (enrich (fun _ => some []) (fun _ => none) [112] { targets := [some { name := [120, 46, 121] }] }).toOption.isSome = true := by
+  decide
 
 end Grog.C16
